@@ -1,6 +1,6 @@
 (* C08 — LastIndex returns exactly the rightmost case-insensitive match
    (conventions as in C01.v). *)
-From Strcase Require Import Base Utf8 Utf8Facts Spec SpecFacts SpecIndex Fold FoldFacts FoldTables FoldFacts121.
+From Strcase Require Import Base Utf8 Utf8Facts Spec SpecFacts SpecIndex Fold FoldFacts FoldTables FoldFacts121 Impl Impl7 Instances.
 
 Theorem C08_last_index_rightmost : forall s sub i,
   last_index fold121 s sub = i -> 0 <= i ->
@@ -31,6 +31,20 @@ Theorem C08_index_le_last_index : forall s sub,
   0 <= index fold121 s sub -> index fold121 s sub <= last_index fold121 s sub.
 Proof. exact (index_le_last_index fold121). Qed.
 Print Assumptions C08_index_le_last_index.
+
+(* the structure-faithful model of LastIndex (Impl7.LastIndex: LastIndexByte for one ASCII byte,
+   lastIndexRune for one code point, the length pre-check, indexRabinKarpRevUnicode with
+   hashStrRevUnicode and the DecodeLastRune / ASCII-shortcut steps) computes Spec.last_index —
+   both packages, every prime, every pair of byte strings, never panicking, never out of fuel *)
+Theorem C08_lastindex_refines : forall p primeRK s sub, wf s -> wf sub ->
+  Impl7.LastIndex fold121 (lower_pkg p) fold_map121 upper_lower121 primeRK p s sub = Ok (last_index fold121 s sub).
+Proof. exact lastindex_refines121. Qed.
+Print Assumptions C08_lastindex_refines.
+
+Theorem C08_rabinkarp_rev_refines : forall p primeRK s sub, wf s -> wf sub -> sub <> [] ->
+  Impl7.indexRabinKarpRevUnicode fold121 (lower_pkg p) primeRK s sub = Ok (last_index fold121 s sub).
+Proof. exact rabinkarp_rev_refines121. Qed.
+Print Assumptions C08_rabinkarp_rev_refines.
 
 Example C08_example :
   last_index fold121 [107; 75; 226; 132; 170; 120] [75] = 2 /\
